@@ -1,7 +1,9 @@
 package main
 
 import (
+	"fmt"
 	"go/token"
+	"os"
 	"sort"
 	"strings"
 
@@ -259,9 +261,15 @@ func runC08(c *Ctx) {
 			k+" is a default: it must be Set only on the Get(\""+k+"\") == \"\" edge so that a value from a previous proxy is kept")
 		val, vctx := w.val()
 		okVal := val != nil && valOK(val)
+		if os.Getenv("C08_DEBUG") != "" {
+			fmt.Fprintln(os.Stderr, "A2", k, "valOK", okVal)
+		}
 		if okVal && k != "X-Forwarded-Proto" {
-			if _, dep := c08clientDep(val, vctx); dep {
+			if d, dep := c08clientDep(val, vctx); dep {
 				okVal = false
+				if os.Getenv("C08_DEBUG") != "" {
+					fmt.Fprintln(os.Stderr, "A2", k, "clientDep", d)
+				}
 			}
 		}
 		c.check("C08.A2", w.where()+"|"+k+" describes the client's connection/request", w.instr.Pos(), okVal,
